@@ -1022,6 +1022,7 @@ def run_memmem(rep, repo):
     ext['memchr'] = ext_memchr_content
     F = 'igris_memmem'
     lim = ['arg1 <= 1048576', 'arg3 <= 1048576']
+    uses_memcmp = any(i.op in ('call', 'invoke') and i.callee == 'memcmp' for f in mod.defined() for i in f.all_insts())
 
     def scen(name, setup, when, then, pre=()):
         if ONLY and ONLY not in name:
@@ -1048,7 +1049,15 @@ def run_memmem(rep, repo):
             box['slen'] = env.names['arg3']
         if guarded(F, run.run, F, FnSpec(setup=setup2, pre=lim + list(pre),
                                          post=[dict(name=name, when=when, then=then)])) is not None:
-            rep.add_absint('R-MEMMEM-CONTENT', relabel(summarize(it, run), F))
+            obs = relabel(summarize(it, run), F)
+            if not uses_memcmp:
+                # equality of the whole compared range follows from the memcmp model only; a hand-written comparison
+                # loop needs a quantified loop invariant that the domain does not have
+                lost = [o for o in obs if not o['ok'] and o.get('kind') == 'post' and 'needle_last' in str(o.get('name'))]
+                if lost:
+                    BROKEN.append('%s: the match test is not a memcmp call: "%s" cannot be decided' % (F, lost[0]['name']))
+                    obs = [o for o in obs if o not in lost]
+            rep.add_absint('R-MEMMEM-CONTENT', obs)
 
     def texts(hay, needle):
         def setup(run, st, env, pnames, args, sps):
